@@ -2,7 +2,7 @@
 (* C17, trace validation: the event log of the real code (one event per call, written at the call's return -
    the linearization point of a sequential library - plus the race detector's reports appended by the
    orchestrator) must be a behaviour of the Calls design: arguments and package variables keep their initial
-   snapshot across every call (Pure), every call returns what the same call returned when it ran alone
+   snapshot across every call (Pure), a result object overwritten by its caller changes no argument (scrib events), every call returns what the same call returned when it ran alone
    (SequentialResults; the table of sequential results is built from the sequential pass of the same log,
    where every call is made twice and must agree with itself), and there is no data-race report whose
    writing access is in library code.  Violating events are listed, the run does not stop at the first. *)
@@ -23,6 +23,11 @@ Why(e) ==
          ELSE IF e.post # e.pre THEN "argument-modified|" \o e.op
          ELSE IF Has(table, Key(e)) /\ table[Key(e)] # e.res THEN "result-depends-on-history|" \o e.op
          ELSE "ok"
+    [] e.ev = "scrib" ->      \* the caller overwrote the object that a call had returned: results are made of fresh storage
+         IF ~Has(shared, e.arg) THEN "unknown-argument"
+         ELSE IF e.arg \in dirty THEN "ok"
+         ELSE IF e.post # e.pre THEN "result-shares-storage-with-argument|" \o e.op
+         ELSE "ok"
     [] e.ev = "conc" ->
          IF e.arg \in dirty THEN "ok"
          ELSE IF ~Has(table, Key(e)) THEN "no-sequential-result|" \o e.op
@@ -39,7 +44,7 @@ Next == /\ i <= Len(Trace)
            /\ bad' = IF w = "ok" THEN bad ELSE bad + 1
            /\ shared' = IF e.ev = "init" THEN (e.arg :> e.pre) @@ shared ELSE shared
            /\ table' = IF e.ev = "seq" /\ ~Has(table, Key(e)) THEN (Key(e) :> e.res) @@ table ELSE table
-           /\ dirty' = IF e.ev = "seq" /\ Has(shared, e.arg) /\ (e.pre # shared[e.arg] \/ e.post # e.pre) THEN dirty \cup {e.arg} ELSE dirty
+           /\ dirty' = IF e.ev \in {"seq", "scrib"} /\ Has(shared, e.arg) /\ (e.pre # shared[e.arg] \/ e.post # e.pre) THEN dirty \cup {e.arg} ELSE dirty
         /\ i' = i + 1
 Done == i = Len(Trace) + 1 => PrintT(<<"SUMMARY", ToJson([n |-> Len(Trace), bad |-> bad])>>)
 ====
